@@ -420,7 +420,7 @@ def register(reg):
     class ReceiveEvents(Contract):
         key = H2 + "._receive_events"
         props = ("C01", "C02", "C12", "C13", "C14", "C15", "C08", "C20")
-        params = {"stream_id": "opt:int"}
+        params = {"stream_id": "opt:int", "flow_stream_id": "opt:int"}
         modifies = ("NS.pending", "NS.written", "X.ver", "X.closed", "X.queue_ver", "H2._events", "H2._connection_terminated", "H2._read_exception", "H2._write_exception",
                     "H2._connection_error", "H2._max_streams", "H2._request_count", "Sem.permits", "SemG.mine")
         raises = IO_RAISES + [RPE, CNA, "Cancelled", "OtherException"]
@@ -445,6 +445,20 @@ def register(reg):
                     ("no_read_while_own_events_are_queued", ("C12", "C02", "C13", "C15", "C08"), z3.Not(pending)),
                     ("no_read_after_goaway", ("C14",), F(c, s, "H2._connection_terminated") == 0),
                 ]
+                # from the property (C13 "resuming as soon as the window reopens"): a sender waiting for flow-control credit
+                # queues for the read lock behind whichever stream is reading; the WINDOW_UPDATE it waits for may be consumed by
+                # that reader.  Blocking in a fresh network read with the window open stalls the upload for ever (the server
+                # is waiting for the body): the window is re-examined under the lock, in the same atomic step as the read
+                # (design_probes/p34)
+                fsid = c.args.get("flow_stream_id")
+                if fsid is not None and hasattr(fsid, "none"):
+                    x = c.new(s, "H2._h2_state")
+                    ver = F(c, x, "X.ver")
+                    w = reg.h2_window(x.t, ver, fsid.val.t)
+                    m = reg.h2_max_frame(x.t, ver)
+                    out.append(("no_network_read_for_a_sender_whose_window_is_open", ("C13", "C12"), z3.Or(fsid.none, z3.If(w < m, w, m) <= 0)))
+                # (a tree whose _receive_events cannot be told who waits for credit fails the call-site obligation
+                # `blocked_sender_names_its_own_stream_for_the_window_recheck` of _wait_for_outgoing_flow instead)
             if ev.name == "list.append":
                 # the dispatch: an event goes to the queue of the stream it carries, if registered
                 e = ev.data["value"]
@@ -724,7 +738,10 @@ def register(reg):
             if ev.name == "call:" + H2 + "._receive_events":
                 sid = kwarg(ev, "stream_id", 1)
                 none = sid is None or isinstance(sid, VNone)
-                return [("blocked_sender_always_reads_the_network", ("C13", "C12", "C15"), none)]
+                fs = kwarg(ev, "flow_stream_id", 2)
+                mine = isinstance(fs, VInt) and z3.is_true(z3.simplify(fs.t == c.args["stream_id"].t))
+                return [("blocked_sender_always_reads_the_network", ("C13", "C12", "C15"), none),
+                        ("blocked_sender_names_its_own_stream_for_the_window_recheck", ("C13",), bool(mine))]
             return []
 
         def flow_now(self, c):
